@@ -191,6 +191,16 @@ func enumPaths(start *ssa.BasicBlock, cfg walkCfg) (paths []*Path, truncated boo
 				try(val)
 				return
 			}
+			// a named condition (`outOfRange := a || b; if outOfRange`): a boolean phi that received another condition on
+			// this path is decided like that condition
+			if cfg.Decide != nil {
+				if rc, rneg, isConst, _, ok := condOnPath(p, Decision{If: last, Cond: last.Cond, At: len(p.Blocks) - 1}); ok && !isConst && rc != nil {
+					if val, known := cfg.Decide(rc, p); known {
+						try(val != rneg)
+						return
+					}
+				}
+			}
 			// a condition already decided earlier on this path keeps its value, unless it was recomputed
 			// since (its defining block was executed again, e.g. a loop condition)
 			if prev, ok := p.DecisionOn(last.Cond); ok {
@@ -363,10 +373,68 @@ func decideOnPath(cond ssa.Value, p *Path) (bool, bool) {
 		}
 	}
 	if nilness == 0 {
+		// the same value was tested against nil earlier on this path (`v, err := f(); if err != nil { … }` inside an
+		// inlined helper, then `if e == nil` on the variable that received it): the earlier outcome stands
+		nilness = testedNilness(p, r)
+	}
+	if nilness == 0 {
 		return false, false
 	}
 	val := (nilness == 1) == (bo.Op == token.EQL)
 	return val != neg, true
+}
+
+// testedNilness: 1 (nil) / 2 (non-nil) when a decision of the path compared r — directly or through phis resolved at
+// that point — with nil, and r was computed once on the path; 0 otherwise.
+func testedNilness(p *Path, r ssa.Value) int {
+	if in, ok := r.(ssa.Instruction); ok {
+		n := 0
+		for _, b := range p.Blocks {
+			if b == in.Block() {
+				n++
+			}
+		}
+		if n > 1 {
+			return 0
+		}
+	}
+	isNil := func(y ssa.Value) bool { c, ok := y.(*ssa.Const); return ok && c.Value == nil }
+	for _, d := range p.Decisions {
+		cnd, neg := stripNot(d.Cond)
+		bo, ok := cnd.(*ssa.BinOp)
+		if !ok || (bo.Op != token.EQL && bo.Op != token.NEQ) {
+			continue
+		}
+		var x ssa.Value
+		switch {
+		case isNil(bo.Y):
+			x = bo.X
+		case isNil(bo.X):
+			x = bo.Y
+		default:
+			continue
+		}
+		for i := 0; i < 8; i++ {
+			ph, isPhi := x.(*ssa.Phi)
+			if !isPhi {
+				break
+			}
+			e := p.PhiEdgeAt(ph, d.At)
+			if e == nil {
+				break
+			}
+			x = e
+		}
+		if x != r {
+			continue
+		}
+		wasNil := (bo.Op == token.EQL) == (d.Taken != neg)
+		if wasNil {
+			return 1
+		}
+		return 2
+	}
+	return 0
 }
 
 func clonePath(p *Path) *Path {
